@@ -5,9 +5,9 @@ import (
 	"fmt"
 	"time"
 
+	"github.com/cockroachdb/pebble/vfs"
 	"github.com/jamf/regatta/regattapb"
 	"github.com/jamf/regatta/regattaserver"
-	"github.com/cockroachdb/pebble/vfs"
 	"github.com/jamf/regatta/storage"
 	"github.com/jamf/regatta/storage/table/fsm"
 	sm "github.com/lni/dragonboat/v4/statemachine"
